@@ -237,5 +237,17 @@ theorem proj_insertCol (m q : Nat) (hq : q ≤ m) (P : PRow) :
   unfold proj
   rw [pauliMat_insertCol m q hq, insSite_smul_left, insSite_add_left, insSite_one q hq]
 
+/-! ### consistency with the "last qubit = right-most Kronecker factor" convention of `HilbertKron` -/
+
+theorem delB_last {m : Nat} (b : Bits (m + 1)) : delB m b = initB b := by
+  apply bits_ext
+  intro j hj
+  rw [bx_delB m b j hj, if_pos hj, bx_initB b j hj]
+
+/-- at the last site `insSite` is the entrywise Kronecker product of `pauliMat_succ` -/
+theorem insSite_last {m : Nat} (A : Matrix (Bits m) (Bits m) ℂ) (u : Matrix Bool Bool ℂ) (a b : Bits (m + 1)) :
+    insSite m A u a b = A (initB a) (initB b) * u (lastB a) (lastB b) := by
+  rw [insSite_apply, delB_last, delB_last, bx_lastB, bx_lastB]
+
 end Hilbert
 end Graphiq
